@@ -164,7 +164,15 @@ func (v Value) IsNaN() bool {
 		return false
 	}
 
-	return math.IsNaN(v.float64())
+	// The conversion may run JavaScript (valueOf/toString) and throw: a predicate
+	// cannot report that, so a value that does not convert is not NaN.
+	result := false
+	if err := catchPanic(func() {
+		result = math.IsNaN(v.float64())
+	}); err != nil {
+		return false
+	}
+	return result
 }
 
 // IsString will return true if value is a string (primitive).
